@@ -682,3 +682,42 @@ pub fn c02_nonop_%(i)d() {
 }
 ''' % dict(i=i, tier="quick" if q == "q" else "thorough", ty=ty, t=t, key=key, unw=max(len(key) + 2, 4))
     return {"c02_op.rs": out}
+
+
+# ------------------------------------------------------------------------------------
+# C15: `in` over number representation pairs; merge per operand list shape
+# ------------------------------------------------------------------------------------
+
+def gen_c15(tier):
+    out = prelude("c15_op.rs")
+    reps = ["i64", "u64", "f64"]
+    for a in range(3):
+        for b in range(3):
+            out += '''
+//@ harness: c15_in_num_%(ra)s_%(rb)s tier=%(tier)s timeout=900 kind=main mem=8
+//@ encodes: op::array::in_, op::array::deep_eq, op::array::number_eq
+//@ bound: needle Number(any %(ra)s), haystack [Bool, Number(any %(rb)s)]: member iff numerically equal, whatever the spelling (1 / 1.0 / u64)
+#[cfg_attr(kani, kani::proof)]
+#[cfg_attr(kani, kani::unwind(6))]
+#[cfg_attr(kani, kani::stub(std::fmt::format, stub_format))]
+#[cfg_attr(verif_replay, test)]
+pub fn c15_in_num_%(ra)s_%(rb)s() {
+    in_numbers(%(a)d, %(b)d);
+}
+''' % dict(ra=reps[a], rb=reps[b], a=a, b=b, tier="quick" if (a, b) in ((0, 2), (2, 0), (1, 0), (2, 2), (0, 0)) else "thorough")
+    docs = ["no operands", "[x]: one non-array operand", "[[y, z]]", "[x, [y, z]]", "[[y, z], [], null]", "[[y, z], x, [y, z]]"]
+    for k in range(6):
+        out += '''
+//@ harness: c15_merge_%(k)d tier=%(tier)s timeout=%(to)d kind=main mem=%(mem)d
+//@ encodes: op::array::merge
+//@ bound: operand list %(doc)s (payloads symbolic): arrays spliced one level, other values kept as one element, order preserved, length = sum
+#[cfg_attr(kani, kani::proof)]
+#[cfg_attr(kani, kani::unwind(8))]
+#[cfg_attr(kani, kani::stub(std::fmt::format, stub_format))]
+#[cfg_attr(kani, kani::stub(<serde_json::Value as std::clone::Clone>::clone, value_clone_model))]
+#[cfg_attr(verif_replay, test)]
+pub fn c15_merge_%(k)d() {
+    merge_case(%(k)d);
+}
+''' % dict(k=k, doc=docs[k], tier="quick" if k in (0, 1) else "thorough", to=600 if k < 2 else 2400, mem=8 if k < 2 else 24)
+    return {"c15_op.rs": out}
